@@ -282,6 +282,15 @@ func propC16(c *Ctx) {
 				return len(ch) > 0 && ch[len(ch)-1] == fNotif
 			}},
 		}
+		// parameters of a membership helper that receive the table's columns at the call under examination
+		colsParam := map[ssa.Value]bool{}
+		isColsLoad := func(v ssa.Value) bool {
+			if colsParam[stripConv(v)] {
+				return true
+			}
+			_, ch := fieldChain(stripConv(v))
+			return len(ch) > 0 && ch[len(ch)-1] == fCols
+		}
 		isColName := func(v ssa.Value) bool {
 			root, ch := fieldChain(v)
 			if !chainIs(ch, fColName) {
@@ -291,12 +300,7 @@ func propC16(c *Ctx) {
 			if !ok {
 				return false
 			}
-			_, sch := fieldChain(s)
-			return len(sch) > 0 && sch[len(sch)-1] == fCols
-		}
-		isColsLoad := func(v ssa.Value) bool {
-			_, ch := fieldChain(stripConv(v))
-			return len(ch) > 0 && ch[len(ch)-1] == fCols
+			return isColsLoad(s)
 		}
 		// member: v is a boolean that can be true only when the name (a value
 		// satisfying nameIs, in v's function) is the Name of a table column.
@@ -407,7 +411,13 @@ func propC16(c *Ctx) {
 							}
 							isParamName := func(w ssa.Value) bool {
 								root, ch := fieldChain(w)
-								return chainIs(ch, fColName) && stripConv(root) == ssa.Value(pred.Params[0])
+								root = stripConv(root)
+								if al, ok := root.(*ssa.Alloc); ok {
+									if cv := cellValue(al); cv != nil {
+										root = stripConv(cv) // the spilled parameter
+									}
+								}
+								return chainIs(ch, fColName) && root == ssa.Value(pred.Params[0])
 							}
 							if !((isParamName(b.X) && innerName(b.Y)) || (isParamName(b.Y) && innerName(b.X))) {
 								okPred = false
@@ -435,6 +445,11 @@ func propC16(c *Ctx) {
 					return false
 				}
 				par := h.Params[pi+off]
+				for i, a := range x.Call.Args {
+					if i < len(h.Params) && isColsLoad(a) {
+						colsParam[h.Params[i]] = true // hasColumn(ig.Table.Columns, name)
+					}
+				}
 				okAll := true
 				n := 0
 				isPar := func(w ssa.Value) bool {
